@@ -268,3 +268,242 @@ Proof.
   - vm_compute. reflexivity.
   - exact frames_example.
 Qed.
+
+(* ================================================================== *)
+(* Audio and video share one time origin (the two-track statement).
+
+   Model: set_origin / set_time_offset / adjust_origin of Model/Disk.v (the
+   statement-by-statement transcription of diskTrack.setOrigin,
+   setTimeOffset, adjustOrigin, compared with the real code by the
+   `disktime' component on every run) under the event layer of
+   Model/DiskOrigin.v: OFirst i ts now (writeRTP found track i without
+   origin and calls setOrigin), OSR i ntp rtp (a sender report:
+   SetTimeOffset), OOpen i ts (initWriter opens the file: adjustOrigin),
+   OClose (conn.close()).
+
+   [capture_time t ts] is the publisher's NTP time (ns since 1900) at which
+   timestamp ts of track t was sampled according to the track's last sender
+   report - the code's own expression `remote' in setOrigin.  [Inv k c]
+   (Proofs/DiskOriginInv.v) says: every track that has an origin o and a
+   sender report satisfies
+       | capture_time t o - NTPToTime(originRemote) | <= k * (10^9/rate + 3) ns,
+   originRemote <> 0: ALL such tracks measure from ONE publisher instant.
+   [hist_ok c es] says that the quantities the code converts along the
+   history stay in range (stated on the code's own expressions: samples and
+   origins within 2^30 ticks of the sender report, clock skews and
+   adjustments below 1000 s, times in NTP era 0, clock rates 1 kHz..1 MHz);
+   [hist_okb] is its executable form. *)
+From Galene Require Import Model.DiskOrigin Proofs.DiskOriginInv Proofs.DiskOrigin.
+
+(* EVERY history - any number of tracks, any order of first samples, sender
+   reports (any number of them, also ones that move an origin), file
+   openings and closes: the invariant is kept; only an adjustOrigin costs
+   one more tick of slack.  In particular, from a new two-track connection. *)
+Theorem C20_common_origin_every_history : forall es k c,
+  1 <= k -> Inv k c -> hist_ok c es -> Inv (k + opens es) (orun c es).
+Proof. exact run_inv. Qed.
+Print Assumptions C20_common_origin_every_history.
+
+Theorem C20_common_origin_two_tracks : forall r0 r1 es,
+  rate_ok r0 -> rate_ok r1 -> hist_ok (conn2 r0 r1) es ->
+  Inv (1 + opens es) (orun (conn2 r0 r1) es).
+Proof. exact fresh_run_inv. Qed.
+Print Assumptions C20_common_origin_two_tracks.
+
+(* What the invariant means for the file: two tracks with an origin and a
+   sender report each (clock rates multiples of 1000 up to 1 MHz), a sample
+   of A and a sample of B that are written: the difference of their
+   container timestamps (ms) is the difference of their capture times, up to
+   1 ms (rounding down to ms) + 2 ns + k * (one tick + 3 ns) per track.
+   For Opus/video and k = 1: 1 000 002 + 20 836 + 11 114 ns. *)
+Theorem C20_two_tracks_container_times : forall k c tA tB oA oB sA sB qA qB,
+  Inv k c -> In tA (tc_tracks c) -> In tB (tc_tracks c) ->
+  tt_origin tA = Some oA -> tt_ntp tA <> 0 ->
+  tt_origin tB = Some oB -> tt_ntp tB <> 0 ->
+  tt_rate tA = 1000 * qA -> 1 <= qA <= 1000 ->
+  tt_rate tB = 1000 * qB -> 1 <= qB <= 1000 ->
+  near (i32 (sA - tt_rtp tA)) -> near (i32 (oA - tt_rtp tA)) -> before_origin oA sA = false ->
+  near (i32 (sB - tt_rtp tB)) -> near (i32 (oB - tt_rtp tB)) -> before_origin oB sB = false ->
+  Z.abs ((tm_of oA (tt_rate tA) sA - tm_of oB (tt_rate tB) sB) * 1000000
+         - (capture_time tA sA - capture_time tB sB))
+  <= 1000002 + sync_bound k (tt_rate tA) + sync_bound k (tt_rate tB).
+Proof. exact two_track_container_times. Qed.
+Print Assumptions C20_two_tracks_container_times.
+
+Theorem C20_sync_bound_values :
+  sync_bound 1 48000 = 20836 /\ sync_bound 1 90000 = 11114 /\
+  sync_bound 2 48000 = 41672 /\ sync_bound 2 90000 = 22228.
+Proof. exact sync_bound_values. Qed.
+Print Assumptions C20_sync_bound_values.
+
+(* (a) The first sample of each of two tracks and the sender report of each:
+   in each of the 12 orders in which both sender reports are known before
+   the second origin is set (good_orders = the orders without a sender
+   report after the second OFirst), for all values in range: no origin is
+   changed after it was set; the track that came first keeps the timestamp
+   of its first sample as origin; the two origins were sampled at the same
+   publisher time up to one tick of each clock + 6 ns; written samples get
+   container timestamps whose difference is the difference of their
+   capture times up to 1 ms + one tick of each clock + 8 ns. *)
+Theorem C20_two_tracks_reports_before_second_origin :
+  forall r0 r1 ts0 now0 ts1 now1 ntp0 rtp0 ntp1 rtp1,
+  rate_ok r0 -> rate_ok r1 -> ntp0 <> 0 -> ntp1 <> 0 ->
+  0 <= ntp0 < 18446744073709551616 -> 0 <= ntp1 < 18446744073709551616 ->
+  near (i32 (ts0 - rtp0)) -> near (i32 (ts1 - rtp1)) ->
+  era_ok (cap ntp0 rtp0 r0 ts0) -> era_ok (cap ntp1 rtp1 r1 ts1) ->
+  - (999 * second) <= cap ntp0 rtp0 r0 ts0 - cap ntp1 rtp1 r1 ts1 <= 999 * second ->
+  forall es, In es (good_orders ts0 now0 ts1 now1 ntp0 rtp0 ntp1 rtp1) ->
+  origin_moved (conn2 r0 r1) es = false /\
+  exists o0 o1,
+    origins (orun (conn2 r0 r1) es) = [Some o0; Some o1] /\ (o0 = ts0 \/ o1 = ts1) /\
+    Z.abs (cap ntp0 rtp0 r0 o0 - cap ntp1 rtp1 r1 o1) <= sync_bound 1 r0 + sync_bound 1 r1 /\
+    forall q0 q1 s0 s1,
+      r0 = 1000 * q0 -> 1 <= q0 <= 1000 -> r1 = 1000 * q1 -> 1 <= q1 <= 1000 ->
+      near (i32 (s0 - rtp0)) -> near (i32 (o0 - rtp0)) -> before_origin o0 s0 = false ->
+      near (i32 (s1 - rtp1)) -> near (i32 (o1 - rtp1)) -> before_origin o1 s1 = false ->
+      Z.abs ((tm_of o0 r0 s0 - tm_of o1 r1 s1) * 1000000
+             - (cap ntp0 rtp0 r0 s0 - cap ntp1 rtp1 r1 s1))
+      <= 1000002 + sync_bound 1 r0 + sync_bound 1 r1.
+Proof. exact good_orders_common_origin. Qed.
+Print Assumptions C20_two_tracks_reports_before_second_origin.
+
+(* (b) The other orders.  On concrete values (Opus + video, the audio 20 ms
+   later, see w_orders) ALL 24 orders satisfy the range conditions and end
+   with two origins in sync (Inv 1) - but an origin is replaced after it was
+   set in EXACTLY the 12 orders in which a sender report comes after the
+   second first sample: "the origin of a track is fixed once it is set" is
+   false of the code in each of them (finding N3). *)
+Theorem C20_two_tracks_all_orders : forall es,
+  In es w_orders ->
+  hist_ok w_conn es /\ Inv 1 (orun w_conn es) /\
+  both_origins (orun w_conn es) = true /\
+  origin_moved w_conn es = negb (reports_before_second_origin es).
+Proof. exact all_orders_characterised. Qed.
+Print Assumptions C20_two_tracks_all_orders.
+
+(* what a sender report does to the origin of its own track, exactly: nothing
+   while the track has no origin or originRemote is unknown (then
+   originRemote is derived from this report); otherwise the origin moves by
+   sr_delta = FromDuration((NTP(report) - NTP(originRemote))
+                           - ToDuration(rtp - origin)) ticks,
+   whatever was written before *)
+Theorem C20_sender_report_effect : forall c i ntp rtp t,
+  nth_error (tc_tracks c) i = Some t ->
+  origin_of (ostep c (OSR i ntp rtp)) i =
+  match tt_origin t with
+  | None => None
+  | Some o => if tc_remote c =? 0 then Some o
+              else Some (w32 (o - w32 (sr_delta c t o ntp rtp)))
+  end.
+Proof. exact sr_effect. Qed.
+Print Assumptions C20_sender_report_effect.
+
+(* (c) per-track monotonicity across such a move is FALSE whenever the
+   origin moves later (dl < 0) by more than the distance to the next sample
+   plus one millisecond: the later sample T2 is written with a smaller
+   timestamp than the earlier sample T1 was (all unwrapped) *)
+Theorem C20_ts_origin_move_not_monotone : forall O T1 T2 dl rate,
+  1000 <= rate -> dl < 0 ->
+  0 <= T1 - O < 2147483648 -> T1 <= T2 -> T2 - T1 + rate / 1000 <= - dl ->
+  0 <= T2 - O + dl ->
+  before_origin (w32 (w32 O - w32 dl)) (w32 T2) = false /\
+  tm_of (w32 (w32 O - w32 dl)) rate (w32 T2) < tm_of (w32 O) rate (w32 T1).
+Proof. exact sr_move_not_monotone. Qed.
+Print Assumptions C20_ts_origin_move_not_monotone.
+
+(* ... and it happens to the FIRST (video) track too: audio sender report
+   known early, video keyframe ts 90000, first audio packet 20 ms later
+   (sampled 200 ms after the keyframe by the reports): video frame ts 93000
+   is written with timestamp 33; then the first video sender report moves
+   the video origin from 90000 to 106199: frame ts 96000 is dropped as
+   "before the origin", frame ts 108000 is written with timestamp 20.
+   (The same numbers come out of the real setOrigin/setTimeOffset.) *)
+Theorem C20_ts_sender_report_first_track_refuted :
+  reports_before_second_origin n3v_all = false /\
+  hist_okb w_conn n3v_all = true /\
+  origins (orun w_conn n3v_pre) = [Some 47040; Some 90000] /\
+  origins (orun w_conn n3v_all) = [Some 47040; Some 106199] /\
+  container_time (orun w_conn n3v_pre) 1 93000 = Some 33 /\
+  container_time (orun w_conn n3v_all) 1 96000 = None /\
+  container_time (orun w_conn n3v_all) 1 108000 = Some 20.
+Proof. exact n3v_witness. Qed.
+Print Assumptions C20_ts_sender_report_first_track_refuted.
+
+(* (c) adjustOrigin.  It runs only when initWriter opens a file (while a
+   file is open the time state is untouched), so no sample of that file
+   precedes it ... *)
+Theorem C20_adjust_only_when_opening : forall cn i w h ts,
+  cn_time (fst (fst (init_writer cn i w h ts))) =
+  if cn_open cn then cn_time cn else adjust_origin (cn_time cn) i ts.
+Proof. exact init_writer_time. Qed.
+Print Assumptions C20_adjust_only_when_opening.
+
+(* ... the sample that opens the file (not before its origin) is written,
+   with timestamp 0 (clock rate >= 2000); the origin of the opening track
+   ends at ts or ONE TICK BEFORE ts ... *)
+Theorem C20_adjust_origin_hits : forall c i ts t o,
+  nth_error (tc_tracks c) i = Some t -> tt_origin t = Some o ->
+  rate_ok (tt_rate t) -> 0 <= i32 (ts - o) -> 0 <= ts < 4294967296 ->
+  exists o', origin_of (adjust_origin c i ts) i = Some o' /\
+             (o' = ts \/ w32 (ts - o') = 1) /\
+             before_origin o' ts = false /\
+             (2000 <= tt_rate t -> tm_of o' (tt_rate t) ts = 0).
+Proof. exact adjust_origin_hits. Qed.
+Print Assumptions C20_adjust_origin_hits.
+
+(* ... "so that the origin of track t is equal to ts" (the comment of
+   adjustOrigin) is false: FromDuration(ToDuration(1, 90000), 90000) = 0 *)
+Theorem C20_adjust_origin_exact_refuted :
+  origin_of (adjust_origin (mkTC (Some 0) 0 [mkTT (Some 0) 0 0 90000]) 0 1) 0 = Some 0.
+Proof. exact adjust_origin_one_tick_short. Qed.
+Print Assumptions C20_adjust_origin_exact_refuted.
+
+(* N4, for every state: a keyframe sample with other dimensions while the
+   file is open makes initWriter call conn.close(), which resets every
+   origin; adjustOrigin then does nothing, the new file is opened, and the
+   keyframe is NOT written ("Invalid origin"); no track has an origin
+   afterwards, so nothing at all is written ... *)
+Theorem C20_resize_keyframe_dropped : forall c i ts,
+  snd (resize_sample c i ts) = None /\
+  fst (resize_sample c i ts) = close_origins c /\
+  forall j s, container_time (fst (resize_sample c i ts)) j s = None.
+Proof. exact resize_keyframe_dropped. Qed.
+Print Assumptions C20_resize_keyframe_dropped.
+
+(* ... until the next keyframe: in a connection with a video track and
+   without local origin, writeRTP of any packet that is not the start of a
+   video keyframe leaves the time state as it is *)
+Theorem C20_no_origin_before_keyframe : forall cn i now p t,
+  nth_error (cn_tracks cn) i = Some t ->
+  cn_hasVideo cn = true -> tc_local (cn_time cn) = None ->
+  origin_of (cn_time cn) i = None ->
+  (cd_video (k_cd t) = true -> cd_kf (k_cd t) p = false) ->
+  cn_time (fst (write_rtp_pre cn i now p)) = cn_time cn.
+Proof. exact no_origin_before_keyframe. Qed.
+Print Assumptions C20_no_origin_before_keyframe.
+
+(* non-vacuity of the two-track theorems: the hypotheses of
+   C20_two_tracks_reports_before_second_origin hold of concrete values
+   (Opus + video), the order SR0 SR1 F1 F0 is one of the 12, it ends with
+   origins 52800 / 90000, and the samples 100 ms later satisfy the
+   hypotheses about samples and are both written with timestamp 100; the
+   range conditions hold along the history of the first-track witness. *)
+Example C20_origin_example :
+  (rate_ok 48000 /\ rate_ok 90000 /\ w_ntp <> 0 /\ 0 <= w_ntp < 18446744073709551616 /\
+   near (i32 (48000 - 52800)) /\ near (i32 (90000 - 90000)) /\
+   era_ok (cap w_ntp 52800 48000 48000) /\ era_ok (cap w_ntp 90000 90000 90000) /\
+   - (999 * second) <= cap w_ntp 52800 48000 48000 - cap w_ntp 90000 90000 90000
+   <= 999 * second) /\
+  (let es := [OSR 0 w_ntp 52800; OSR 1 w_ntp 90000;
+              OFirst 1 90000 3900000000000000000; OFirst 0 48000 3900000000020000000] in
+   In es (good_orders 48000 3900000000020000000 90000 3900000000000000000
+                      w_ntp 52800 w_ntp 90000) /\
+   origins (orun w_conn es) = [Some 52800; Some 90000] /\
+   near (i32 (57600 - 52800)) /\ near (i32 (52800 - 52800)) /\
+   before_origin 52800 57600 = false /\
+   near (i32 (99000 - 90000)) /\ near (i32 (90000 - 90000)) /\
+   before_origin 90000 99000 = false /\
+   tm_of 52800 48000 57600 = 100 /\ tm_of 90000 90000 99000 = 100 /\
+   cap w_ntp 52800 48000 57600 - cap w_ntp 90000 90000 99000 = 0) /\
+  hist_ok w_conn n3v_all.
+Proof. exact origin_example. Qed.
